@@ -62,6 +62,8 @@ def main():
                 ok = r.returncode == 0
             elif exp == "undecided":
                 ok = r.returncode == 2
+            elif exp == "fail-any":
+                ok = r.returncode == 1 and len(failed) > 0
             elif exp == "ok-or-undecided":
                 ok = r.returncode in (0, 2)   # a benign refactor must never raise an alarm
             else:
